@@ -211,6 +211,32 @@ def run(ctx, rep):
                 site = fn.site(b.tloc or "")
                 if key in listed:
                     r = listed[key]
+                    if r.get("fails_on_fields") is not None:
+                        # the reason is about what the callee's failure depends on: re-verify it - every
+                        # condition of the callee that leads to a failing return consults only these members
+                        extra_f = set()
+                        for t_ in F.find(r["what"]):
+                            for hb in t_.blocks.values():
+                                if hb.cond is None or len(hb.succ) != 2:
+                                    continue
+                                if any(hs is not None and _is_error_block(t_, hs) for hs in hb.succ):
+                                    used = set()
+                                    for x in walk(hb.cond):
+                                        if x.get("k") == "field" and x.get("this"):
+                                            used.add(x.get("n"))
+                                        if x.get("k") == "var" and "d" in x:
+                                            for b2, ev2 in t_.events():
+                                                if ev2["k"] == "decl" and (ev2.get("var") or {}).get("d") == x["d"] and \
+                                                        isinstance(ev2.get("e"), dict):
+                                                    used |= {y.get("n") for y in walk(ev2["e"])
+                                                             if y.get("k") == "field" and y.get("this")}
+                                    extra_f |= used - set(r["fails_on_fields"])
+                        if extra_f:
+                            rep.add(Obligation("REJECTDOM", fn.base, "%s: %s" % (kind, what), site, VIOLATION,
+                                               detail="the reader fails when %s fails, and that callee's failure now also "
+                                                      "depends on %s (recorded reason: %s)" % (
+                                                          what, sorted(extra_f), r["writer_side"][:120])))
+                            continue
                     st = NOTE if r.get("outside_domain") else ALLOWED
                     rep.add(Obligation("REJECTDOM", fn.base, "%s: %s" % (kind, what), site, st,
                                        detail="reader rejects `%s`" % b.condsrc,
